@@ -120,7 +120,7 @@ func runIns(r *mc.Run, scen string, ins []In, st *mc.Stats) bool {
 		st.Transitions += int64(len(outs))
 		st.States++
 		if !expectVerify(in) {
-			h := sha256.Sum256(append(append([]byte(in.Ask+"|"+strings.Join(in.KeyringNames, ",")+"|"), in.Deb...)))
+			h := sha256.Sum256(append([]byte(in.Ask+"|"+strings.Join(in.KeyringNames, ",")+"|"), in.Deb...))
 			st.DistinctNontrivial(string(h[:]))
 		}
 		classes := map[string]bool{}
